@@ -99,34 +99,34 @@ structure GenDone where
   reqs : List Req
   answer : Bool
 
-def replay (unv full : String → String) : Table → List Req → Option Table
+def replay (unv full : String → String) (sfx : String → Nat → String) : Table → List Req → Option Table
   | t, [] => some t
-  | t, r :: rs => match newImport unv full t r with
+  | t, r :: rs => match newImport unv full sfx t r with
     | none => none
-    | some (t', _) => replay unv full t' rs
+    | some (t', _) => replay unv full sfx t' rs
 
-def doneLoopM (unv full : String → String) : Table → List GenDone → Option (Table × Bool)
+def doneLoopM (unv full : String → String) (sfx : String → Nat → String) : Table → List GenDone → Option (Table × Bool)
   | t, [] => some (t, true)
   | t, g :: gs =>
-    match replay unv full t g.reqs with
+    match replay unv full sfx t g.reqs with
     | none => none
-    | some t' => if !g.answer then some (t', false) else doneLoopM unv full t' gs
+    | some t' => if !g.answer then some (t', false) else doneLoopM unv full sfx t' gs
 
 /-- a request is settled in t: asking again returns without changing the table -/
-def Settled (unv full : String → String) (t : Table) (r : Req) : Prop :=
-  ∃ a, newImport unv full t r = some (t, a)
+def Settled (unv full : String → String) (sfx : String → Nat → String) (t : Table) (r : Req) : Prop :=
+  ∃ a, newImport unv full sfx t r = some (t, a)
 
-theorem replay_settled {unv full : String → String} {t : Table} :
-    ∀ {rs : List Req}, (∀ r ∈ rs, Settled unv full t r) → replay unv full t rs = some t
+theorem replay_settled {unv full : String → String} {sfx : String → Nat → String} {t : Table} :
+    ∀ {rs : List Req}, (∀ r ∈ rs, Settled unv full sfx t r) → replay unv full sfx t rs = some t
   | [], _ => rfl
   | r :: rs, h => by
     obtain ⟨a, ha⟩ := h r (List.mem_cons_self ..)
     simp only [replay, ha]
     exact replay_settled (fun r' hr' => h r' (List.mem_cons_of_mem _ hr'))
 
-theorem doneLoopM_settled {unv full : String → String} {t : Table} :
-    ∀ {gs : List GenDone}, (∀ g ∈ gs, ∀ r ∈ g.reqs, Settled unv full t r) →
-      doneLoopM unv full t gs = some (t, doneLoop (gs.map (·.answer)))
+theorem doneLoopM_settled {unv full : String → String} {sfx : String → Nat → String} {t : Table} :
+    ∀ {gs : List GenDone}, (∀ g ∈ gs, ∀ r ∈ g.reqs, Settled unv full sfx t r) →
+      doneLoopM unv full sfx t gs = some (t, doneLoop (gs.map (·.answer)))
   | [], _ => rfl
   | g :: gs, h => by
     simp only [doneLoopM, replay_settled (h g (List.mem_cons_self ..)), List.map_cons, doneLoop]
@@ -136,9 +136,9 @@ theorem doneLoopM_settled {unv full : String → String} {t : Table} :
       exact doneLoopM_settled (fun g' hg' => h g' (List.mem_cons_of_mem _ hg'))
 
 /-- Every request that was made while the table was built is settled in the final table: tables only grow
-at the end, and a settled request stays settled (Imports.newImport_idempotent / newImport_stable). -/
-theorem run_extends {unv full : String → String} :
-    ∀ {rs : List Req} {t t' : Table} {as : List String}, run unv full t rs = some (t', as) → ∃ u, t' = t ++ u
+at the end, and a settled request stays settled (Imports.newImport_after). -/
+theorem run_extends {unv full : String → String} {sfx : String → Nat → String} :
+    ∀ {rs : List Req} {t t' : Table} {as : List String}, run unv full sfx t rs = some (t', as) → ∃ u, t' = t ++ u
   | [], t, t', as, h => by simp [run] at h; exact ⟨[], by simp [h.1]⟩
   | r :: rs, t, t', as, h => by
     unfold run at h
@@ -151,24 +151,13 @@ theorem run_extends {unv full : String → String} :
         simp only [Option.some.injEq, Prod.mk.injEq] at h
         obtain ⟨rfl, _⟩ := h
         obtain ⟨u2, rfl⟩ := run_extends h2
-        have : ∃ u1, t1 = t ++ u1 := by
-          unfold newImport at h1
-          simp only at h1
-          split at h1
-          · simp only [Option.some.injEq, Prod.mk.injEq] at h1; exact ⟨_, h1.1.symm⟩
-          · split at h1
-            · simp only [Option.some.injEq, Prod.mk.injEq] at h1; exact ⟨[], by simp [h1.1]⟩
-            · split at h1
-              · split at h1
-                · simp only [Option.some.injEq, Prod.mk.injEq] at h1; exact ⟨[], by simp [h1.1]⟩
-                · simp at h1
-              · simp only [Option.some.injEq, Prod.mk.injEq] at h1; exact ⟨_, h1.1.symm⟩
+        have : ∃ u1, t1 = t ++ u1 := newImport_extends h1
         obtain ⟨u1, rfl⟩ := this
         exact ⟨u1 ++ u2, by simp⟩
 
-theorem run_settles {unv full : String → String} :
-    ∀ {rs : List Req} {t t' : Table} {as : List String}, run unv full t rs = some (t', as) →
-      ∀ r ∈ rs, Settled unv full t' r
+theorem run_settles {unv full : String → String} {sfx : String → Nat → String} :
+    ∀ {rs : List Req} {t t' : Table} {as : List String}, run unv full sfx t rs = some (t', as) →
+      ∀ r ∈ rs, Settled unv full sfx t' r
   | [], _, _, _, _, r, hr => by simp at hr
   | r0 :: rs, t, t', as, h, r, hr => by
     unfold run at h
@@ -182,7 +171,7 @@ theorem run_settles {unv full : String → String} :
         obtain ⟨rfl, _⟩ := h
         rcases List.mem_cons.1 hr with rfl | hr
         · obtain ⟨u, rfl⟩ := run_extends h2
-          exact ⟨a, newImport_stable (newImport_idempotent h1)⟩
+          exact ⟨a, newImport_after h1 u⟩
         · exact run_settles h2 r hr
 
 /-! ## 3. printer.WriteTo: the import block -/
